@@ -84,8 +84,14 @@ def main():
         r = h.append_range_dimension([float(x) for x in ini["r_ticks"]] if ini["r_ticks"] is not None else None, **kw)
         s = h.append_set_dimension([str(x) for x in ini["s_labels"]] if ini["s_labels"] is not None else None)
         obs = []
-        for op in c["ops"]:
+        # two Python objects of every participant: the calls alternate between them, the observation is made through the
+        # objects that did NOT make the call, and the reads through both must agree
+        H, T, R, S = [h, b.data_arrays["host"]], [t, b.data_arrays["target"]], None, None
+        R, S = [r, H[1].dimensions[0]], [s, H[1].dimensions[1]]
+        for nop, op in enumerate(c["ops"]):
             code = 0
+            w = (nop + k) % 2
+            h, t, r, s = H[w], T[w], R[w], S[w]
             try:
                 o = op[0]
                 if o == "RSetTicks":
@@ -135,11 +141,16 @@ def main():
                     f.close()
                     f = nixio.File.open(path, nixio.FileMode.ReadWrite)
                     b = f.blocks["b%d" % k]
-                    h, t = b.data_arrays["host"], b.data_arrays["target"]
-                    r, s = h.dimensions[0], h.dimensions[1]
+                    H = [b.data_arrays["host"], b.data_arrays["host"]]
+                    T = [b.data_arrays["target"], b.data_arrays["target"]]
+                    R = [H[0].dimensions[0], H[1].dimensions[0]]
+                    S = [H[0].dimensions[1], H[1].dimensions[1]]
             except Exception as exc:
                 code = classify(exc)
-            obs.append(observe(code, t, r, s))
+            ob = observe(code, T[1 - w], R[1 - w], S[1 - w])
+            ob2 = observe(code, T[w], R[w], S[w])
+            ob["objects_agree"] = (ob == ob2)
+            obs.append(ob)
         out.append(obs)
     f.close()
     os.remove(path)
